@@ -695,8 +695,9 @@ h1_chunked (request_st * const r, chunkqueue * const cq, chunkqueue * const dst_
                     && (max_request_size < te_chunked
                      || max_request_size - te_chunked < dst_cq->bytes_in)) {
                     log_error(r->conf.errh, __FILE__, __LINE__,
-                      "request-size too long: %lld -> 413",
-                      (long long)(dst_cq->bytes_in + te_chunked));
+                      "request-size too long: %llu -> 413",
+                      (unsigned long long)dst_cq->bytes_in
+                      + (unsigned long long)te_chunked);
                     /* 413 Payload Too Large */
                     return http_response_reqbody_read_error(r, 413);
                 }
@@ -722,7 +723,7 @@ h1_chunked (request_st * const r, chunkqueue * const cq, chunkqueue * const dst_
 
         if (te_chunked > 2) {
             if (len > te_chunked-2) len = te_chunked-2;
-            if (dst_cq->bytes_in + te_chunked <= 64*1024) {
+            if (te_chunked <= 64*1024 - dst_cq->bytes_in) {
                 /* avoid buffering request bodies <= 64k on disk */
                 chunkqueue_steal(dst_cq, cq, len);
             }
